@@ -107,9 +107,11 @@ RE_META = re.compile(
     re.IGNORECASE
 )
 
-# Comments and scripts: a tag spelled inside them is not an element
+# Comments, CDATA sections, processing instructions and scripts: a tag
+# spelled inside them is not an element
 RE_NO_ELEMENTS = re.compile(
-    r'<!--.*?-->|<script\b.*?</script\s*>',
+    r'<!--.*?-->|<!\[CDATA\[.*?\]\]>|<\?\w.*?\?>|'
+    r'<script\b.*?</script\s*>',
     re.IGNORECASE | re.DOTALL
 )
 
